@@ -741,6 +741,8 @@ class Engine:
                             raise Unsupported(f'payload {variant}.{p[1]} of {v!r} missing in {fr.fn.name}')
                     cell = c
                     variant = None
+                elif t is Ref and re.match(r'(std|core)::ptr::(Unique|NonNull)<|\*(const|mut) ', p[2]):
+                    pass    # Box<T> / Unique<T> / NonNull<T> are the pointer they wrap
                 else:
                     fld = getattr(v, 'mir_field', None)
                     if fld is None:
@@ -1307,7 +1309,7 @@ class Engine:
         if kind in ('PtrToPtr', 'MutToConstPointer', 'FnPtrToPtr'):
             rp = getattr(v, 'retype', None)
             if rp is not None:
-                return rp(self, to)
+                return rp(self, self.subst_ty(to, fr))
             return v
         if kind == 'PointerCoercion':
             if extra and 'Unsize' in extra:
